@@ -223,9 +223,21 @@ def run_model(lines, timeout=1200):
 
 # --------------------------------------------------------------------------- CLI runner / sandboxes
 def scratch_root() -> Path:
-    base = Path(os.environ.get("VERIF_SCRATCH", tempfile.gettempdir()))
+    """where throw-away trees go: the per-run directory made by check.py (removed when the check ends, whatever
+    happened to the worker processes), else VERIF_SCRATCH, else the system temporary directory"""
+    base = Path(os.environ.get("VERIF_RUN_SCRATCH") or os.environ.get("VERIF_SCRATCH") or tempfile.gettempdir())
     base.mkdir(parents=True, exist_ok=True)
     return base
+
+
+def begin_run_scratch():
+    import atexit
+    base = Path(os.environ.get("VERIF_SCRATCH") or tempfile.gettempdir())
+    base.mkdir(parents=True, exist_ok=True)
+    d = tempfile.mkdtemp(prefix="tvr_", dir=base)
+    os.environ["VERIF_RUN_SCRATCH"] = d
+    atexit.register(shutil.rmtree, d, True)
+    return d
 
 
 class Sandbox:
@@ -292,6 +304,21 @@ def snapshot(root: Path, with_ino=False):
     return dict(sorted(res.items()))
 
 
+_NEUTRAL = {}
+
+
+def _neutral_cwd():
+    """one empty scratch directory per process, removed at exit"""
+    pid = os.getpid()
+    if pid not in _NEUTRAL:
+        import atexit
+        d = os.path.realpath(tempfile.mkdtemp(prefix="tvc_", dir=scratch_root()))
+        _NEUTRAL.clear()
+        _NEUTRAL[pid] = d
+        atexit.register(shutil.rmtree, d, True)
+    return _NEUTRAL[pid]
+
+
 def run_cli(args, stdin_text=None, cwd=None):
     """Runs tempren.cli.main() in-process.  Returns (stdout, stderr, exit status)."""
     import tempren.cli
@@ -310,8 +337,7 @@ def run_cli(args, stdin_text=None, cwd=None):
     # relative to its cwd must land in scratch space
     neutral = None
     if cwd is None:
-        neutral = tempfile.mkdtemp(prefix="tvc_", dir=scratch_root())
-        cwd = neutral
+        neutral = cwd = _neutral_cwd()
     os.chdir(cwd)
     try:
         with contextlib.redirect_stdout(out), contextlib.redirect_stderr(err):
@@ -332,10 +358,8 @@ def run_cli(args, stdin_text=None, cwd=None):
         except OSError:
             cwd_after = None
         os.chdir(old_cwd)
-        if neutral is not None:
-            if cwd_after == neutral:
-                cwd_after = old_cwd        # (callers compare with the directory they started from)
-            shutil.rmtree(neutral, ignore_errors=True)
+        if neutral is not None and cwd_after == neutral:
+            cwd_after = old_cwd        # (callers compare with the directory they started from)
     if isinstance(rc, int):
         rc = int(rc)
     run_cli.last_cwd_after = cwd_after
